@@ -1350,13 +1350,16 @@ pub fn mon_inflight(_scn: &Scenario, r: &Record, check_exact: bool, check_gate: 
                         continue;
                     }
                     let b: usize = outstanding.values().sum();
-                    if check_gate && *mode == 0 {
+                    // normal transmissions and MTU probes (mode 2: RFC 8899 probes are ack-eliciting packets under
+                    // the sender's congestion control, RFC 9002 7 exempts only PTO probes and the one packet on
+                    // entering recovery)
+                    if check_gate && (*mode == 0 || *mode == 2) {
                         if let Some(w) = cwnd {
                             if b >= w as usize {
                                 if allow_recovery > 0 {
                                     allow_recovery -= 1;
                                 } else {
-                                    v(out, "sendgate.above_window", format!("{} sent congestion-controlled packet {} (space {}, {} bytes, normal mode) at {} us with {} bytes already in flight and a congestion window of {}", epn(ep), pn, space, len, e.t, b, w));
+                                    v(out, "sendgate.above_window", format!("{} sent congestion-controlled packet {} (space {}, {} bytes, transmission mode {}) at {} us with {} bytes already in flight and a congestion window of {}", epn(ep), pn, space, len, mode, e.t, b, w));
                                 }
                             }
                         }
